@@ -258,7 +258,7 @@ def convexq_vcs():
         vcs.append(mkvc(f'convexq/dcstep on {mode}/case 3, not bracketed, the trial point is not the minimiser itself and the minimiser lies inside [stpmin, stpmax]: the new step is the exact minimiser',
                         decl, hy + [I(R['case'][3]), '(not brackt)', I('(not (= dp 0.0))'), f'(<= stpmin {tstar})', f'(<= {tstar} stpmax)'], f'(and {I(dc["defined"])} (= {new} {tstar}))', about, src))
         vcs.append(mkvc(f'convexq/dcstep on {mode}/case 3, bracketed: the new step is the exact minimiser cut by the safeguard stp + delta*(sty - stp)',
-                        decl, hy + [I(R['case'][3]), 'brackt', I('(not (= dp 0.0))')], f'(= {new} (ite (> stp stx) (rmin {tstar} {R[3]["guard"]}) (rmax {tstar} {R[3]["guard"]})))', about, src))
+                        decl, hy + [I(R['case'][3]), 'brackt'], f'(= {new} (ite (> stp stx) (rmin {tstar} {R[3]["guard"]}) (rmax {tstar} {R[3]["guard"]})))', about, src))
         vcs.append(mkvc(f'convexq/dcstep on {mode}/case 4 (lower value, same sign, |dp| >= |dx|) cannot occur on two distinct samples', decl, hy, NOT(I(R['case'][4])), about, src))
         # the advertised conditions of More-Thuente, for phi, at the step dcstep returns in cases 1 / 2
         ph = lambda t: f'(+ (* qa {t} {t}) (* qb {t}) qc)'
